@@ -61,8 +61,8 @@ pub struct SuccinctBitVector {
 
     /// Relative rank within superblock for each block.
     /// block_ranks[i] = number of 1-bits from superblock start to block i start.
-    /// Uses u8 since max value is SUPERBLOCK_BITS - BLOCK_BITS = 448.
-    block_ranks: Vec<u8>,
+    /// Uses u16: the max value is SUPERBLOCK_BITS - BLOCK_BITS = 448, which does not fit in u8.
+    block_ranks: Vec<u16>,
 
     /// Sample positions for select1.
     /// select1_samples[i] = position of (i * SELECT_SAMPLE_RATE)-th 1-bit.
@@ -114,7 +114,7 @@ impl SuccinctBitVector {
 
             // Store relative rank within superblock
             let relative_rank = cumulative_ones - superblock_start_ones;
-            block_ranks.push(relative_rank as u8);
+            block_ranks.push(relative_rank as u16);
 
             // Count bits in this word
             let bits_in_word = if bit_pos + BLOCK_BITS <= len {
@@ -429,7 +429,7 @@ impl SuccinctBitVector {
     #[must_use]
     pub fn auxiliary_size_bytes(&self) -> usize {
         self.superblock_ranks.len() * 4
-            + self.block_ranks.len()
+            + self.block_ranks.len() * 2
             + self.select1_samples.len() * 4
             + self.select0_samples.len() * 4
     }
